@@ -83,5 +83,11 @@ CHECKS = {
   text="Every sequence of <= 2 (3) blocks over 23 non-heading block symbols is rendered at top level and inside 15 wrappers (backtick and colon fences of two lengths, option blocks of both styles, nesting 2/3/4 deep with alternating fence kinds, include with and without front matter and inside a note, block substitution): the wrapper node's children must be node-for-node identical (line/source masked; system messages as a multiset) to the top-level rendering. 256 documents put a footnote, link-reference, (target)= or {#id} definition inside an include or substitution and use it before/after, at top level, in a quote, list item or another directive: the use must resolve exactly as with the definition written in place.",
   note="Trusted: the metamorphic relation; option-looking first lines and Jinja text excluded by grammar; headings excluded (C05). Known finding: link reference definitions inside include/substitution are invisible to outer text tokenised earlier.",
  ),
+ "C04": dict(
+  category="model_checking",
+  technique="bounded exhaustive enumeration of nesting shapes (leaf kinds x wrapper chains x directive layouts) with a unique marker per construct, executed through the docutils pipeline; the generator's own line bookkeeping is the reference model",
+  text="13 leaf kinds (paragraphs, heading, code, target, lists, quote, unknown directive / role / option warnings, body on the argument line) are wrapped in every chain of <= 2 (3) wrappers out of block quote, bullet/ordered item, ::: div, include (with and without :start-line:) and 80 directive layouts (backtick/colon x no/one/two/--- option blocks, blank line after the options and before the closing fence, argument or not); every leaf node, every enclosing list/item/quote/directive node and every warning must carry the 1-based line the generator wrote it on, and the path of the file it came from.",
+  note="Trusted: the generator's bookkeeping and its grammar constraints (no option-looking first body line unless intended). Two suite-pinned deviations are known findings (included files +1; body on the argument line +1), matched only when the delta is exactly explained by them.",
+ ),
 }
 NOT_APPLICABLE = {}
